@@ -278,6 +278,24 @@ fn structured_cases(ctx: &Ctx, scratch: &std::path::Path) -> Vec<Case> {
     }
     add("recursion/macro-arg-doubling", ".macro m\n.dq @0\n.endm\n.equ a0 = 1\n.equ a1 = a0+a0\n.equ a2 = a1+a1\n.equ a3 = a2+a2\nm a3+a3\n".into());
     add("recursion/equ-label-same-name", "a: .equ a = a\n.dw a\n".into());
+    // the same cycles and doubling ladders with every round passing through a function call, a unary
+    // operator, parentheses or a comparison: each kind of sub-expression must count against the guards
+    for (wn, open, close) in [
+        ("low", "low(", ")"), ("high", "high(", ")"), ("byte2", "byte2(", ")"), ("byte3", "byte3(", ")"), ("byte4", "byte4(", ")"), ("lwrd", "lwrd(", ")"), ("hwrd", "hwrd(", ")"),
+        ("page", "page(", ")"), ("exp2", "exp2(", ")"), ("log2", "log2(", ")"), ("paren", "(", ")"), ("neg", "-", ""), ("not", "!", ""), ("compl", "~", ""), ("cmp", "0 == ", ""), ("and", "1 && ", ""), ("shift", "1 << ", ""),
+    ] {
+        add(&format!("recursion/equ-self-through/{}", wn), format!(".equ a = {}a{}\nldi r16, a\n", open, close));
+        add(&format!("recursion/equ-mutual-through/{}", wn), format!(".equ lo = {}hi{} + 1\n.equ hi = {}lo{}\n.org hi\nnop\n", open, close, open, close));
+        add(&format!("recursion/set-self-through/{}", wn), format!(".equ a = {}a{}\n.set b = a\n.dw b\n", open, close));
+        for n in [24usize, 40, 64] {
+            let mut t = String::from(".equ b0 = 1\n");
+            for i in 1..=n {
+                t.push_str(&format!(".equ b{} = {}b{}{} + {}b{}{}\n", i, open, i - 1, close, open, i - 1, close));
+            }
+            t.push_str(&format!(".dw b{}\n", n));
+            add(&format!("recursion/equ-doubling-through/{}/{}", wn, n), t);
+        }
+    }
     // nesting ladders in expressions
     for d in [10usize, 100, 1000, 5000, 10000, 30000] {
         add(&format!("ladder/paren/{}", d), format!(".dq {}\n", ladder("(", ")", d, "1")));
